@@ -246,7 +246,7 @@ def run_case(case):
                 g2 = np.zeros(0)
             if len(g2) >= 4 and abs(g2[-1] - T1) <= 1e-8:
                 grid = g2
-                sol_fp = jax.jit(ivpsolve.solve_adaptive_save_at(solver=cfg_fp["solver"], error=cfg_fp["error"], clip_dt=True))(
+                sol_fp = jax.jit(ivpsolve.solve_adaptive_save_at(solver=cfg_fp["solver"], error=cfg_fp["error"], clip_dt=True, while_loop=configs.bounded_while()))(
                     cfg_fp["prior"], jnp.asarray(g2), atol=case["tol"], rtol=case["tol"], dt0=case["dt0"], damp=case["damp"])
         sol = jax.jit(ivpsolve.solve_fixed_grid(solver=cfg["solver"]))(cfg["prior"], grid=jnp.asarray(grid), damp=case["damp"])
         if float(np.nanmax(np.abs(np.nan_to_num(np.asarray(sol.u.mean_flat), nan=1e300)))) > 1e4:
